@@ -183,6 +183,8 @@ class FakeAsyncOs:
 
     async def remove(self, p):
         await self.h.slow('remove')
+        if self.h.cfg.get('remove_fails'):
+            raise PermissionError(13, 'Permission denied', p)     # the file system refuses (read-only share, file in use)
         os.remove(p)
 
 
@@ -240,6 +242,7 @@ class Harness:
         self.saved_os = state_mod.asyncos
         state_mod.asyncos = FakeAsyncOs(self)
         self.path = os.path.join(tmpdir, 'f.bin')
+        self.cfg = cfg
         if transfer is None:
             t = Transfer('user', 'remote\\path\\f.bin', TransferDirection[direction])
             t.state = TransferState.init_from_state(TransferState.State[state], t)
@@ -403,7 +406,10 @@ class Harness:
     def step_cancel(self):
         for slot, f in self.cleanup.items():
             if not f.done():
-                f.set_result(None)
+                if self.cfg.get('task_error'):
+                    f.set_exception(RuntimeError('connection clean-up failed'))   # the cancelled task dies with an error
+                else:
+                    f.set_result(None)
         self.settle()
 
     def enabled_step(self):
@@ -538,15 +544,15 @@ def encode_obs(obs, rank, listeners=False) -> list:
 # ---------------------------------------------------------------------------------------------
 # compact case files: model expression + fingerprint of the expected observation
 # ---------------------------------------------------------------------------------------------
-HP = 2305843009213693951
+HP = 4611686018427387903   # 2^62 - 1, used as a mask
 
 
 def fingerprint(ll) -> int:
     h = 1
     for l in ll:
         for x in l:
-            h = (h * 1000003 + x + 7) % HP
-        h = (h * 1000003 + 977 + 7) % HP
+            h = (h * 1000003 + x + 7) & HP
+        h = (h * 1000003 + 977 + 7) & HP
     return h
 
 
